@@ -511,8 +511,10 @@ pub fn analyse(
                                 .demanded_at
                                 .map(|d| d.min(polls[i].not_before))
                                 .unwrap_or(polls[i].not_before);
+                            // ("not starved": the property sets no deadline; a second on an idle channel is far beyond any
+                            // scheduling slack)
                             if polls[i].known
-                                && start_t > due + 2
+                                && start_t > due + 1000
                                 && idle_since(&hist[..pos], due, start_t)
                             {
                                 fail!(
